@@ -322,6 +322,22 @@ Proof.
     intros [_ X]. apply orb_false_iff in Elong. destruct Elong as [A B]. apply Z.ltb_ge in A. apply Z.ltb_ge in B. lia.
 Qed.
 
+Lemma report_block_facts_stamps k d t :
+  now (report_block k d t) = now d /\
+  last_comm (report_block k d t) = (if REPORT_PERIOD_US <=? u32 (t - last_comm d) then t else last_comm d).
+Proof.
+  destruct (REPORT_PERIOD_US <=? u32 (t - last_comm d)) eqn:Edue.
+  2:{ rewrite (rb_not_due k d t Edue). auto. }
+  destruct (rb_report_facts true k d (rb_report k d) eq_refl) as (_ & _ & _ & _ & _ & _ & _ & Fn & _).
+  destruct ((TEN_MINUTES_US <? up_time d) || (TEN_MINUTES_US <? down_time d)) eqn:Elong.
+  - rewrite (rb_due_long k d t Edue Elong).
+    remember (rb_report k d) as d1 eqn:E1. clear E1.
+    pose proof (sub_now true _ _ (sub_set_relay true k d1 RELAY_OFF false false)) as Nw.
+    remember (set_relay k d1 RELAY_OFF false false) as d2 eqn:E2. clear E2.
+    cbn [C10.Model.now C10.Model.last_comm upd_times]. split; congruence.
+  - rewrite (rb_due_short k d t Edue Elong). cbn [C10.Model.now C10.Model.last_comm upd_times]. split; congruence.
+Qed.
+
 Lemma report_block_facts_ext k d t : exists n, outs (report_block k d t) = n ++ outs d.
 Proof.
   destruct (REPORT_PERIOD_US <=? u32 (t - last_comm d)) eqn:Edue.
@@ -469,6 +485,106 @@ Proof. unfold cb_need. subt. Qed.
 Lemma u32_self t : u32 (t - t) = 0.
 Proof. replace (t - t) with 0 by lia. reflexivity. Qed.
 
+(* stages 1 and 2 *)
+Lemma cb_front_facts up k d im d2 :
+  only up d -> NT k up d -> d2 = cb_power k (cb_head k d) im (autocal_enabled k d) (counter k d) ->
+  outs d2 = outs d /\ only up d2 /\ NT k up d2 /\ carry up d2 = carry up d /\ last_comm d2 = last_comm d /\ now d2 = now d /\
+  start_time d2 = start_time d /\
+  u32 (counter k d - last_time d2) = (if frozen_cb k d im then 0 else u32 (counter k d - last_time d)).
+Proof.
+  intros O N E2.
+  destruct (cb_head_frame k d (cb_head k d) eq_refl) as (H1o & H1u & H1d & H1s & H1det & H1ut & H1dt & H1lt & H1lc & H1n & H1c & H1p).
+  remember (cb_head k d) as d1 eqn:E1. clear E1.
+  assert (O1 : only up d1) by (destruct O as [P Q]; unfold only, powered in *; destruct up; cbn [negb] in *; rewrite H1u, H1d; auto).
+  assert (N1 : NT k up d1) by (exact (NT_transfer k up d d1 N H1p)).
+  destruct (cb_power_facts k d1 im (autocal_enabled k d) (counter k d) d2 E2) as (H2o & H2u & H2d & H2ut & H2dt & H2lc & H2p & H2t & H2s & H2n & H2lt).
+  clear E2.
+  assert (O2 : only up d2) by (destruct O1 as [P Q]; unfold only, powered in *; destruct up; cbn [negb] in *; rewrite H2u, H2d; auto).
+  assert (N2 : NT k up d2) by (apply (NT_transfer k up d1 d2 N1); left; auto).
+  assert (Hon : up_on d1 || down_on d1 = true).
+  { destruct O1 as [P _]. unfold powered in P. destruct up; rewrite P; [reflexivity|apply orb_true_r]. }
+  split; [congruence|]. split; [exact O2|]. split; [exact N2|].
+  split; [unfold carry_of; destruct up; congruence|]. split; [congruence|]. split; [congruence|]. split; [congruence|].
+  rewrite H2lt, Hon, H1det, H1s, H1lt. cbn [andb]. unfold frozen_cb.
+  destruct (autocal_enabled k d && negb (detected d || im) && (u32 (counter k d - start_time d) <? POWER_DETECT_US)); [apply u32_self|reflexivity].
+Qed.
+
+(* stage 3 *)
+Lemma cb_account_facts up k d2 im t fo fc el d3 :
+  wfk k -> only up d2 -> NT k up d2 -> 0 <= carry up d2 -> el = u32 (t - last_time d2) -> carry up d2 + el < 4294967296 ->
+  d3 = fst (fst (cb_account o k d2 im t fo fc)) ->
+  ext d2 d3 /\
+  (nofall up (outs d3) -> only up d3 /\ NT k up d3 /\ carry up d3 = carry up d2 + el /\ (start_time d2 <> 0 -> start_time d3 = start_time d2)) /\
+  last_comm d3 = last_comm d2 /\ now d3 = now d2.
+Proof.
+  intros W O2 N2 Hc Eel Hsum E3.
+  assert (Hel : 0 <= el) by (subst el; apply u32_range).
+  rewrite (cb_account_only up k d2 im t fo fc O2), <- Eel in E3. unfold acc_post, acc_pre in E3.
+  destruct (acc_add_facts up d2 el (acc_add d2 up el) O2 Hel Hc Hsum eq_refl) as (Ao & AO & Alt & Alc & An & As & Ap & At & Ac).
+  remember (acc_add d2 up el) as d2a eqn:E2a. clear E2a.
+  assert (N2a : NT k up d2a) by (apply (NT_transfer k up d2 d2a N2); left; auto).
+  pose proof (acc_pre_sub up k d2a im _ eq_refl) as Sp.
+  remember (autocalibrate k (acc_cm k d2a up im) im) as p eqn:Ep. clear Ep.
+  remember (acc_full p up (if up then fo else fc)) as f eqn:Ef. clear Ef.
+  pose proof (sub_carry up _ _ Sp) as Cp.
+  destruct (acc_post_facts up k (fst p) f im d3 W ltac:(lia) E3) as (X3 & P3 & L3l & L3c & L3n).
+  split.
+  { eapply ext_trans; [|exact X3]. destruct (sub_log up _ _ Sp) as [n L]. exists n. rewrite L, Ao. reflexivity. }
+  split.
+  - intros NF3.
+    assert (NFfp : nofall up (outs (fst p))) by (exact (ext_nofall up _ _ X3 NF3)).
+    destruct (sub_bundle k up d2a (fst p) Sp NFfp AO N2a) as (Op & Np & Sfp).
+    destruct (P3 NF3 Op Np) as (O3 & N3 & C3 & St3).
+    split; [exact O3|]. split; [exact N3|]. split; [lia|].
+    intros S0. rewrite St3, Sfp; congruence.
+  - rewrite L3c, L3n, (sub_lc up _ _ Sp), (sub_now up _ _ Sp). split; congruence.
+Qed.
+
+(* stage 4 *)
+Lemma cb_tail_facts up k d3 im t fo fc d' :
+  d' = cb_tail k d3 im t fo fc ->
+  ext d3 d' /\
+  (nofall up (outs d') -> only up d3 -> NT k up d3 ->
+   only up d' /\ NT k up d' /\ carry up d' = carry up d3 /\ (start_time d3 <> 0 -> start_time d' = start_time d3) /\
+   ~ ((REPORT_PERIOD_US <=? u32 (t - last_comm d3)) = true /\ TEN_MINUTES_US < carry up d3)) /\
+  last_time d' = t /\ now d' = now d3 /\
+  last_comm d' = (if REPORT_PERIOD_US <=? u32 (t - last_comm d3) then t else last_comm d3).
+Proof.
+  intros E'. unfold cb_tail, stamp_last in E'.
+  pose proof (sub_trans up _ _ _ (sub_cb_need up k d3) (sub_task_processing up k (cb_need k d3) im fo fc)) as S45.
+  remember (task_processing k (cb_need k d3) im fo fc) as d5 eqn:E5. clear E5.
+  destruct (report_block_facts_ext k d5 t) as [n6 L6].
+  remember (report_block k d5 t) as d6 eqn:E6.
+  assert (X' : outs d' = outs d6) by (subst d'; reflexivity).
+  split.
+  { eapply ext_trans; [exact (sub_ext up _ _ S45)|]. exists n6. rewrite X'. exact L6. }
+  split.
+  - intros NF O3 N3. rewrite X' in NF.
+    assert (NF5 : nofall up (outs d5)) by (rewrite L6 in NF; apply nofall_app in NF; tauto).
+    destruct (sub_bundle k up d3 d5 S45 NF5 O3 N3) as (O5 & N5 & St5).
+    destruct (report_block_facts up k d5 t d6 O5 E6) as (_ & R1 & R2 & R3 & R4 & R5 & R6).
+    destruct (R6 NF) as (O6 & P6 & T6 & St6 & ND).
+    pose proof (sub_carry up _ _ S45) as C5. pose proof (sub_lc up _ _ S45) as Lc5.
+    assert (C6 : carry up d6 = carry up d3) by (unfold carry_of in *; destruct up; congruence).
+    subst d'.
+    split; [destruct O6 as [A B]; split; unfold powered in *; destruct up; cbn [negb up_on down_on upd_times] in *; auto|].
+    split; [apply (NT_transfer k up d6); [apply (NT_transfer k up d5 d6 N5); left; auto|left; fld; auto]|].
+    split; [unfold carry_of in *; destruct up; fld; exact C6|].
+    split; [intros S0; fld; rewrite St6, St5; congruence|].
+    intros [D1 D2]. apply ND. rewrite Lc5. split; [exact D1|].
+    unfold carry_of in *. destruct up; [left|right]; lia.
+  - destruct (report_block_facts_stamps k d5 t) as (R4 & R5). rewrite <- E6 in R4, R5.
+    subst d'. fld. rewrite R4, R5, (sub_now up _ _ S45), (sub_lc up _ _ S45). auto.
+Qed.
+
+Lemma timer_cb_eq k d im :
+  timer_cb o k d im =
+  cb_tail k (fst (fst (cb_account o k (cb_power k (cb_head k d) im (autocal_enabled k d) (counter k d)) im (counter k d) (cb_fo k d) (cb_fc k d))))
+          im (counter k d)
+          (snd (fst (cb_account o k (cb_power k (cb_head k d) im (autocal_enabled k d) (counter k d)) im (counter k d) (cb_fo k d) (cb_fc k d))))
+          (snd (cb_account o k (cb_power k (cb_head k d) im (autocal_enabled k d) (counter k d)) im (counter k d) (cb_fo k d) (cb_fc k d))).
+Proof. reflexivity. Qed.
+
 (* One timer callback with exactly the output of direction `up` energised before and no falling edge of it logged:
    the run-time counter of that direction grows by the elapsed time (or not at all while the power-consumption
    detection holds the clock back), nothing is converted into position, the output is still on, and the
@@ -485,82 +601,23 @@ Theorem timer_cb_only up k d im d' el :
   (start_time d <> 0 -> start_time d' = start_time d).
 Proof.
   intros W O N Hc Eel Hsum E' NF.
-  set (t := counter k d) in *.
-  assert (Hel : 0 <= el) by (subst el; destruct (frozen_cb k d im); [lia|apply u32_range]).
-  (* stage 1 *)
-  destruct (cb_head_frame k d (cb_head k d) eq_refl) as (H1o & H1u & H1d & H1s & H1det & H1ut & H1dt & H1lt & H1lc & H1n & H1c & H1p).
-  remember (cb_head k d) as d1 eqn:E1.
-  assert (O1 : only up d1) by (destruct O as [P Q]; unfold only, powered in *; destruct up; cbn [negb] in *; rewrite H1u, H1d; auto).
-  assert (N1 : NT k up d1) by (exact (NT_transfer k up d d1 N H1p)).
-  (* stage 2 *)
-  destruct (cb_power_facts k d1 im (autocal_enabled k d) t _ eq_refl) as (H2o & H2u & H2d & H2ut & H2dt & H2lc & H2p & H2t & H2s & H2n & H2lt).
-  remember (cb_power k d1 im (autocal_enabled k d) t) as d2 eqn:E2.
-  assert (O2 : only up d2) by (destruct O1 as [P Q]; unfold only, powered in *; destruct up; cbn [negb] in *; rewrite H2u, H2d; auto).
-  assert (N2 : NT k up d2) by (apply (NT_transfer k up d1 d2 N1); left; auto).
-  assert (Hon : up_on d1 || down_on d1 = true).
-  { destruct O1 as [P _]. unfold powered in P. destruct up; rewrite P; [reflexivity|apply orb_true_r]. }
-  assert (L2 : u32 (t - last_time d2) = el).
-  { rewrite H2lt, Hon, H1det, H1s, H1lt. cbn [andb]. subst el. unfold frozen_cb. fold t.
-    destruct (autocal_enabled k d && negb (detected d || im) && (u32 (t - start_time d) <? POWER_DETECT_US)); [apply u32_self|reflexivity]. }
-  assert (C2 : carry up d2 = carry up d) by (unfold carry_of; destruct up; congruence).
-  (* stage 3 *)
-  unfold C10.Model.timer_cb in E'. fold t in E'.
-  assert (Emid : cb_mid o k d im = cb_account o k d2 im t (cb_fo k d) (cb_fc k d)) by (unfold cb_mid; fold t; rewrite <- E1, <- E2; reflexivity).
-  rewrite Emid in E'.
-  pose proof (cb_account_only up k d2 im t (cb_fo k d) (cb_fc k d) O2) as E3. rewrite L2 in E3.
-  remember (snd (fst (cb_account o k d2 im t (cb_fo k d) (cb_fc k d)))) as fo' eqn:Efo. clear Efo.
-  remember (snd (cb_account o k d2 im t (cb_fo k d) (cb_fc k d))) as fc' eqn:Efc. clear Efc.
-  remember (fst (fst (cb_account o k d2 im t (cb_fo k d) (cb_fc k d)))) as d3 eqn:Ed3. clear Ed3 Emid.
-  unfold acc_post, acc_pre in E3.
-  destruct (acc_add_facts up d2 el (acc_add d2 up el) O2 Hel ltac:(lia) ltac:(lia) eq_refl) as (Ao & AO & Alt & Alc & An & As & Ap & At & Ac).
-  remember (acc_add d2 up el) as d2a eqn:E2a. clear E2a.
-  assert (N2a : NT k up d2a) by (apply (NT_transfer k up d2 d2a N2); left; auto).
-  pose proof (acc_pre_sub up k d2a im _ eq_refl) as Sp.
-  remember (autocalibrate k (acc_cm k d2a up im) im) as p eqn:Ep. clear Ep.
-  remember (acc_full p (if up then true else false) (if up then cb_fo k d else cb_fc k d)) as f eqn:Ef.
-  assert (Ef' : acc_full p up (if up then cb_fo k d else cb_fc k d) = f) by (subst f; destruct up; reflexivity).
-  rewrite Ef' in E3. clear Ef Ef'.
-  pose proof (sub_carry up _ _ Sp) as Cp.
-  destruct (acc_post_facts up k (fst p) f im d3 W ltac:(lia) E3) as (X3 & P3 & L3l & L3c & L3n).
-  (* stage 4 *)
-  unfold cb_tail, stamp_last in E'.
-  pose proof (sub_trans up _ _ _ (sub_cb_need up k d3) (sub_task_processing up k (cb_need k d3) im fo' fc')) as S45.
-  remember (task_processing k (cb_need k d3) im fo' fc') as d5 eqn:E5. clear E5.
-  remember (report_block k d5 t) as d6 eqn:E6.
-  (* pull the "no falling edge" back through the stages *)
-  assert (NF6 : nofall up (outs d6)) by (subst d'; exact NF).
-  assert (Q : forall O5 : only up d5, ext d5 d6) by (intros O5; exact (proj1 (report_block_facts up k d5 t d6 O5 E6))).
-  (* forward *)
-  assert (NFp : nofall up (outs (fst p)) -> only up (fst p) /\ NT k up (fst p) /\ (start_time d2a <> 0 -> start_time (fst p) = start_time d2a))
-    by (intros H; exact (sub_bundle k up d2a (fst p) Sp H AO N2a)).
-  (* the log of d6 extends that of d5, d3, fst p: needs `only up d5`, which needs nofall at d5 ... resolve by cases on the log of d5 *)
-  destruct (report_block_facts_ext k d5 t) as [n6 L6]. rewrite <- E6 in L6.
-  assert (NF5 : nofall up (outs d5)) by (rewrite L6 in NF6; apply nofall_app in NF6; tauto).
-  assert (NF3 : nofall up (outs d3)) by (exact (ext_nofall up _ _ (sub_ext up _ _ S45) NF5)).
-  assert (NFfp : nofall up (outs (fst p))) by (exact (ext_nofall up _ _ X3 NF3)).
-  destruct (NFp NFfp) as (Op & Np & Sfp).
-  destruct (P3 NF3 Op Np) as (O3 & N3 & C3 & St3).
-  destruct (sub_bundle k up d3 d5 S45 NF5 O3 N3) as (O5 & N5 & St5).
-  destruct (report_block_facts up k d5 t d6 O5 E6) as (_ & R1 & R2 & R3 & R4 & R5 & R6).
-  destruct (R6 NF6) as (O6 & P6 & T6 & St6 & ND).
-  pose proof (sub_carry up _ _ S45) as C5.
-  assert (C6 : carry up d6 = carry up d + el).
-  { unfold carry_of in *. destruct up; congruence. }
-  subst d'. 
-  split; [destruct O6 as [A B]; split; unfold powered in *; destruct up; cbn [negb up_on down_on upd_times] in *; auto|].
-  split; [apply (NT_transfer k up d6); [apply (NT_transfer k up d5 d6 N5); left; auto|left; fld; auto]|].
-  split; [unfold carry_of in *; destruct up; fld; exact C6|].
-  pose proof (sub_now up _ _ S45) as Nw5. pose proof (sub_now up _ _ Sp) as Nwp.
-  split; [fld; reflexivity|]. split; [fld; congruence|].
-  split.
-  { fld. rewrite R5. rewrite (sub_lc up _ _ S45), L3c, (sub_lc up _ _ Sp), Alc, H2lc, H1lc. reflexivity. }
-  split.
-  { intros [D1 D2]. apply ND. rewrite (sub_lc up _ _ S45), L3c, (sub_lc up _ _ Sp), Alc, H2lc, H1lc. split; [exact D1|].
-    unfold carry_of in *. destruct up; fld; [left|right]; lia. }
-  intros S0. fld.
-  assert (Z2a : start_time d2a = start_time d) by congruence.
-  assert (Zp : start_time (fst p) = start_time d) by (rewrite Sfp; congruence).
-  assert (Z3 : start_time d3 = start_time d) by congruence.
-  assert (Z5 : start_time d5 = start_time d) by (rewrite St5; congruence).
-  congruence.
+  rewrite timer_cb_eq in E'.
+  destruct (cb_front_facts up k d im _ O N eq_refl) as (F2o & O2 & N2 & C2 & Lc2 & Nw2 & St2 & El2).
+  remember (cb_power k (cb_head k d) im (autocal_enabled k d) (counter k d)) as d2 eqn:E2. clear E2.
+  rewrite <- Eel in El2.
+  destruct (cb_account_facts up k d2 im (counter k d) (cb_fo k d) (cb_fc k d) el _ W O2 N2 ltac:(lia) (eq_sym El2) ltac:(lia) eq_refl)
+    as (X3 & P3 & Lc3 & Nw3).
+  remember (snd (fst (cb_account o k d2 im (counter k d) (cb_fo k d) (cb_fc k d)))) as fo' eqn:Efo. clear Efo.
+  remember (snd (cb_account o k d2 im (counter k d) (cb_fo k d) (cb_fc k d))) as fc' eqn:Efc. clear Efc.
+  remember (fst (fst (cb_account o k d2 im (counter k d) (cb_fo k d) (cb_fc k d)))) as d3 eqn:Ed3. clear Ed3.
+  destruct (cb_tail_facts up k d3 im (counter k d) fo' fc' d' E') as (X4 & P4 & Lt4 & Nw4 & Lc4).
+  assert (NF3 : nofall up (outs d3)) by (exact (ext_nofall up _ _ X4 NF)).
+  destruct (P3 NF3) as (O3 & N3 & C3 & St3).
+  destruct (P4 NF O3 N3) as (O4 & N4 & C4 & St4 & ND).
+  split; [exact O4|]. split; [exact N4|]. split; [lia|]. split; [exact Lt4|]. split; [congruence|].
+  split; [rewrite Lc4, Lc3, Lc2; reflexivity|].
+  split; [intros [D1 D2]; apply ND; rewrite Lc3, Lc2; split; [exact D1|lia]|].
+  intros S0. rewrite St4, St3; congruence.
 Qed.
+
+End Callback2.
